@@ -21,17 +21,34 @@ WRAPPED = ["pthread_cond_init", "pthread_cond_destroy", "pthread_cond_wait", "pt
 FILES = ["pcondvariable-posix.c", "pmutex-posix.c", "pmem.c", "perror.c", "pstring.c"]
 # 0, EPERM, EINTR, EAGAIN, ENOMEM, EBUSY, EINVAL, ETIMEDOUT, ENOTRECOVERABLE, EOWNERDEAD, -1, INT_MAX
 RCS = [0, 1, 4, 11, 12, 16, 22, 110, 131, 130, -1, 2147483647]
-SEL = ["obj", "null"]
+SEL = ["obj", "null", "obj2"]       # two live objects of each kind (harness/condvar.c)
+SEL1 = ["obj", "null"]              # freec / freem work on a fresh object
 
 
 def exhaustive():
-    """every call x every NULL-argument combination x every return code (one case per call kind and code)"""
+    """every call x every choice of first object / second object / NULL for each argument x every return code"""
     for rc in RCS:
-        yield ["wait %s %s %d" % (c, m, rc) for c in SEL for m in SEL] + ["ident"]
-        for op in ("signal", "bcast", "lock", "trylock", "unlock", "freec", "freem"):
-            yield ["%s %s %d" % (op, s, rc) for s in SEL] + ["ident"]
+        yield ["wait %s %s %d" % (c, m, rc) for c in SEL for m in SEL] + ["ident", "ident2"]
+        for op in ("signal", "bcast", "lock", "trylock", "unlock"):
+            yield ["%s %s %d" % (op, s, rc) for s in SEL] + ["ident", "ident2"]
+        for op in ("freec", "freem"):
+            yield ["%s %s %d" % (op, s, rc) for s in SEL1] + ["ident"]
         for op in ("newc", "newm"):
-            yield ["%s %d %d" % (op, af, rc) for af in (0, 1)] + ["ident"]
+            yield ["%s %d %d" % (op, af, rc) for af in (0, 1)] + ["ident", "ident2"]
+
+
+def cross_object():
+    """directed: one condition variable used with one mutex and then with the other one (legal once the first waits have
+    returned), and two condition variables on one mutex, in every order; a wrapper that binds an object on first use, or
+    keeps the last one, hands the native call a pointer into the wrong object"""
+    out = []
+    for c1, m1, c2, m2 in [("obj", "obj", "obj", "obj2"), ("obj", "obj2", "obj", "obj"), ("obj", "obj", "obj2", "obj"),
+                           ("obj2", "obj2", "obj", "obj2"), ("obj2", "obj", "obj2", "obj2"), ("obj2", "obj2", "obj", "obj")]:
+        out.append(["lock %s 0" % m1, "wait %s %s 0" % (c1, m1), "unlock %s 0" % m1, "signal %s 0" % c1,
+                    "lock %s 0" % m2, "wait %s %s 0" % (c2, m2), "bcast %s 0" % c2, "unlock %s 0" % m2, "signal %s 0" % c1, "ident2", "ident"])
+    out.append(["ident2", "ident", "ident2"])
+    out.append(["ident", "ident2", "ident"])
+    return out
 
 
 def gen_case(rng, chk, n):
@@ -47,7 +64,9 @@ def gen_case(rng, chk, n):
         elif k in ("newc", "newm"):
             ops.append("%s %d %d" % (k, rng.randrange(2), rc))
         elif k == "ident":
-            ops.append("ident")
+            ops.append(rng.choice(["ident", "ident2"]))
+        elif k in ("freec", "freem"):
+            ops.append("%s %s %d" % (k, rng.choice(SEL1), rc))
         else:
             ops.append("%s %s %d" % (k, rng.choice(SEL), rc))
     return ops
@@ -55,6 +74,48 @@ def gen_case(rng, chk, n):
 
 def signature_of(ops, r):
     return None
+
+
+def spec_scan(chk, fam, cases, label):
+    """implementation against the SPEC column alone, every line of every case.  diffrun.judge stops at the first line
+    where the model (not the implementation) leaves the spec — with a wrapper the translator does not recognise that is
+    the first call of it, and a later line where the implementation itself leaves the spec (a pointer into the object
+    that was not passed) would go unreported.  Returns True when a concrete failing input was reported."""
+    found = False
+    for ops in cases:
+        text = "".join(o + "\n" for o in ops)
+        crc, cout, cerr = fam.run_c(text)
+        mrc, mout, merr = fam.run_m(text)
+        if mrc != 0:
+            continue
+        for i, (c, m) in enumerate(zip(cout.splitlines(), mout.splitlines())):
+            mm, sp = diffrun.split_model_line(m)
+            spec_line = sp if sp is not None else mm
+            if not spec_match(ops[i], c, spec_line):
+                small = diffrun.shrink(fam_spec_only(fam), ops[:i + 1], "spec", budget=40, wall_s=20.0)
+                if chk.violation("\n".join(small) + "\n", "%s spec: op %r: implementation %r, spec %r (model %r)" % (label, ops[i], c, spec_line, mm)):
+                    found = True
+                break
+        if len(chk.violations) >= 3:
+            break
+    return found
+
+
+class fam_spec_only:
+    """a view of a Family whose judge-relevant model answer IS the spec answer (for shrinking a spec-only failure)"""
+
+    def __init__(self, fam):
+        self.name, self.exe, self.env, self.timeout = fam.name, fam.exe, fam.env, fam.timeout
+        self.spec_view, self.spec_match, self.crash_is_violation = fam.spec_view, fam.spec_match, fam.crash_is_violation
+        self.run_c = fam.run_c
+
+    def run_m(self, text):
+        rc, out, err = pv.run_model(self.name, text)
+        lines = []
+        for l in out.splitlines():
+            mm, sp = diffrun.split_model_line(l)
+            lines.append(sp if sp is not None else mm)
+        return rc, "".join(l + "\n" for l in lines), err
 
 
 # ---------------------------------------------------------------------------------------------
@@ -67,7 +128,7 @@ def spec_match(op, c, sp):
     if "?" not in sp:
         return c == sp
     import re
-    return re.fullmatch(re.escape(sp).replace(r"\?", r"[CM]\+\d+"), c) is not None
+    return re.fullmatch(re.escape(sp).replace(r"\?", r"[CM]2?\+\d+"), c) is not None
 
 
 def rt_configs(rng, thorough):
@@ -84,6 +145,12 @@ def rt_configs(rng, thorough):
     cfgs += [["gate", 8, 1000 if thorough else 100], ["gate", rng.randrange(2, 9), 50], ["gate", 1, 50]]
     cfgs += [["gate", 32, 60 if thorough else 12, "u"], ["gate", 64, 30 if thorough else 6, "u"], ["gate", rng.randrange(2, 17), 40, "u"]]
     cfgs += [["trylock", 3000 if thorough else 300]]
+    # wake-up issued after unlocking (signal as well as broadcast), one condition variable with two mutexes in turn,
+    # several independent monitors at the same time, more than 256 simultaneous waiters
+    cfgs += [["pc", 8, 8, 2, items, 0, "u"], ["pc", 2, 3, 1, items, 1, "u"], ["pc", rng.randrange(1, 9), rng.randrange(1, 9), rng.choice([1, 2, 7]), items, rng.randrange(2), "u"],
+             ["ec", 8, 8, items, "u"], ["ec", 1, 8, items, "u"], ["ec", 8, 1, items, "u"]]
+    cfgs += [["rebind", 3000 if thorough else 400], ["pairs", 8, 2000 if thorough else 300], ["pairs", rng.randrange(2, 33), 200], ["pairs", 1, 300]]
+    cfgs += [["gate", 300, 4 if thorough else 2, "u"], ["gate", 257, 4 if thorough else 2]]
     return [[str(x) for x in c] for c in cfgs]
 
 
@@ -115,12 +182,12 @@ def real_threads(chk, cfg, thorough):
         except pv.BuildError as e:
             chk.violation(str(e), "real-thread harness (%s) does not build against the current source" % san, no_input=True, suffix="txt")
             continue
-        mine = cfgs if (thorough or san == "asan") else [c for i, c in enumerate(cfgs) if i % 2 == 0 or c[0] in ("gate", "trylock")]
+        mine = cfgs if (thorough or san == "asan") else [c for i, c in enumerate(cfgs) if i % 2 == 0 or c[0] in ("gate", "trylock", "rebind", "pairs")]
         reps = 6 if thorough else 1
         jobs = [c for c in mine for _ in range(reps)]
         # short programs first; stop a build at the first chunk that shows a failure (a broken
         # library makes most runs hang for the whole watchdog time)
-        jobs.sort(key=lambda a: (a[0] == "pc", int(a[-2]) if a[0] == "pc" else 0))
+        jobs.sort(key=lambda a: (a[0] == "pc", int(a[4]) if a[0] == "pc" else 0))
         stop = False
         for k in range(0, len(jobs), 8):
             chunk = jobs[k:k + 8]
@@ -184,12 +251,16 @@ def run(chk):
     if exe is not None and driver_ok:
         fam = diffrun.Family("condvar", exe, timeout=10, spec_match=spec_match)   # a scripted call never blocks: 10 s means a hang
         cases = pv.load_corpus("C03")
-        ex = list(exhaustive())
+        ex = list(exhaustive()) + cross_object()
         chk.cov["exhaustive_small_scope"] = {"return_codes": RCS, "cases": len(ex),
-                                             "what": "every wrapper x every NULL-argument combination x every listed native return code, each followed by the pointer-identity probe"}
+                                             "what": "every wrapper x every choice of first object / second object / NULL per argument x every listed native return code, "
+                                                     "each followed by the pointer-identity probes (within one object pair and across the two pairs); "
+                                                     "directed sequences that use one condition variable with both mutexes and both condition variables with one mutex"}
         nr = 1500 if thorough else 400
         rnd = [gen_case(chk.rng, chk, chk.rng.choice([3, 8, 25])) for _ in range(nr)]
         found, corr, thm = diffrun.campaign(chk, fam, cases + ex + rnd, proof_ok, detail, signature_of, "C03 wrapper mapping", batch=40)
+        if not found and spec_scan(chk, fam, cross_object() + ex[:40], "C03 wrapper mapping (spec column)"):
+            found = True
         if driver_ok:
             bad = model_schedules(chk, thorough)
             if bad is not None and thm is None:
@@ -203,7 +274,8 @@ def run(chk):
                        "calls x NULL combinations x %d return codes, plus random sequences; distinct by op-file hash, non-trivial = more than one op; "
                        "(b) client model: random schedules (LCG seeds) of the executable transition system, N, M <= 5, C in {1,2,7}, <= 25 spurious wake-ups, "
                        "must end final with everything exchanged in order; (c) real threads: bounded buffer N, M <= 8, C in {1,2,7}, signal and broadcast, "
-                       "sequence-numbered items, event counter, one-broadcast gate, trylock-after-wake, under ASan and ThreadSanitizer; "
+                       "sequence-numbered items, event counter, one-broadcast gate (up to 300 waiters), trylock-after-wake, wake-ups issued inside and after the critical section, "
+                       "one condition variable with two mutexes in turn, up to 32 independent monitors at once, threads-inside-the-section counter, under ASan and ThreadSanitizer; "
                        "each parameter tuple x build is one case" % len(RCS))
     chk.cov["exhaustive"] = False
     chk.assumptions += [
@@ -228,7 +300,7 @@ def finish(chk):
 def replay(chk, path):
     cfg = pv.repo_config()
     lines = [l.strip() for l in open(path) if l.strip() and not l.startswith("#")]
-    rt = [l for l in lines if l.split()[0] in ("pc", "ec", "gate", "trylock")]
+    rt = [l for l in lines if l.split()[0] in ("pc", "ec", "gate", "trylock", "rebind", "pairs")]
     rc = 0
     if rt:
         for san, cc in (("asan", "gcc"), ("tsan", "clang-14")):
